@@ -15,12 +15,18 @@ package main
 // that makes the server allocate memory the request did not pay for in bytes (snappy block header, protobuf
 // length prefixes, pprof/OTLP repeated-field counts, multipart sizes).
 //
+// Two failure classes (keys): C05/alloc-amplification/<route> — the allocation is not explained by any bytes in the
+// request (a declared size reached an allocation); C05/alloc-amplification/decompressed-stream/<route> — the request
+// carries Content-Encoding gzip/snappy and alloc ≤ 64 MiB + 16 × (bytes the decompression stream really yields):
+// the chain buffers a decompressed stream of any size (KNOWN FINDING, see KNOWN_FINDINGS.txt and notes/C05.md).
+//
 // A first measurement above the limit is confirmed in isolation (the child is allowed to go idle, the same request
 // is sent again, the smaller of the two deltas counts), so that work of an earlier request flushed by the insert
 // loops during the window is not attributed to this one.
 
 import (
 	"fmt"
+	"strings"
 )
 
 const (
@@ -69,8 +75,16 @@ func (c *c05Run) judgeAlloc(stream, routeName, shape string, rq c05Request, sent
 			alloc = o2.Alloc
 		}
 		if alloc > limit {
-			c.r.Violate("C05/alloc-amplification/"+routeName,
-				fmt.Sprintf("%s %s (%s): a body of %d bytes made the writer allocate %d bytes (%.1f MiB; limit 64 MiB + 2048 × len(body) = %d), answered %s %d", rq.Method, rq.Path, shape, len(rq.Body), alloc, float64(alloc)/(1<<20), limit, o.Class, o.Status),
+			key, why := "C05/alloc-amplification/"+routeName, ""
+			if e, ok := c05Decompressed(rq); ok && alloc <= c05AllocBase+16*uint64(e) {
+				// the allocation is explained by bytes the decompression stream really yields (buffered twice with
+				// amortised growth): nothing in the chain caps the decompressed size — a different failure class
+				// from an allocation driven by a declared size
+				key = "C05/alloc-amplification/decompressed-stream/" + routeName
+				why = fmt.Sprintf("; the %s stream over the body yields %d bytes, which the chain buffers without a cap", rq.Headers["Content-Encoding"], e)
+			}
+			c.r.Violate(key,
+				fmt.Sprintf("%s %s (%s): a body of %d bytes made the writer allocate %d bytes (%.1f MiB; limit 64 MiB + 2048 × len(body) = %d), answered %s %d%s", rq.Method, rq.Path, shape, len(rq.Body), alloc, float64(alloc)/(1<<20), limit, o.Class, o.Status, why),
 				map[string]any{"stream": stream, "route": routeName, "shape": shape, "request": sent.Req, "outcome": "alloc", "alloc": alloc, "limit": limit, "status": o.Status, "model": model})
 		}
 	}
@@ -84,6 +98,17 @@ func (c *c05Run) judgeAlloc(stream, routeName, shape string, rq c05Request, sent
 		c.maxAllocWhat[stream] = fmt.Sprintf("%s %s: body %d bytes, %d bytes allocated (limit %d)", routeName, shape, len(rq.Body), alloc, limit)
 	}
 	return alloc, nil
+}
+
+// c05Decompressed: the number of bytes the Content-Encoding stream of a request yields (real gzip / snappy framing
+// reader, run in the parent), when there is such a stream.
+func c05Decompressed(rq c05Request) (int, bool) {
+	ce := strings.Trim(rq.Headers["Content-Encoding"], " \t")
+	if ce != "gzip" && ce != "snappy" {
+		return 0, false
+	}
+	hdrOk, data, _ := c05Expand(ce, rq.Body)
+	return len(data), hdrOk
 }
 
 func (c *c05Run) allocNotes() {
